@@ -3,14 +3,21 @@ from props_common import COMMON_TRUSTED
 CONFIG = {
     "areas": ["stateres"],
     "lean": ["VProps.C10"],
-    "sources": ["VProps/C10.lean", "VModel/StateRes.lean", "VModel/StateResSpec.lean", "VModel/StateResSpecExec.lean", "VModel/Auth.lean", "VModel/Event.lean", "VProofs/StateResBasic.lean", "VProofs/StateResSort.lean", "VProofs/StateResSpecOrder.lean", "VProofs/StateResSpecClosure.lean", "VProofs/StateResSpecSplit.lean", "VProofs/StateResSpecAuthDiff.lean", "VProofs/StateResSpecControl.lean", "VProofs/StateResSpecKahn.lean", "VProofs/StateResSpecKahn2.lean", "VProofs/StateResSpecMainline.lean", "VProofs/StateResSpecState.lean", "VProofs/StateResSpecResolve.lean", "VProofs/StateResSpecUnique.lean", "VProofs/StateResSpecExample.lean", "VProofs/StateResSpecV1.lean", "VProofs/StateResSpecV1b.lean", "VProofs/StateResSpecExecSets.lean", "VProofs/StateResSpecExecSets2.lean", "VProofs/StateResSpecExecOrder.lean", "VProofs/StateResSpecExecOrder2.lean", "VProofs/StateResSpecExecResolve.lean", "VProofs/StateResSpecV1c.lean", "VProofs/AuthLookup.lean", "VProofs/StateResV1.lean", "VProofs/StateResV1b.lean", "VProofs/StateResV1c.lean", "VProofs/StateResV1d.lean", "VProofs/StateResV1e.lean", "VProofs/StateResV1f.lean", "VProofs/StateResGroup.lean"],
-    "theorems": ["V.C10.stateres_column_eq_spec", "V.C10.entrypoint_selects", "V.C10.authClosure_iff_reachable", "V.C10.controlClosure_iff", "V.C10.split_eq_spec", "V.C10.split_v1_eq_spec", "V.C10.authDifference_eq_spec", "V.C10.subgraph_eq_spec", "V.C10.authDifference21_eq_spec", "V.C10.controlSet_eq_spec", "V.C10.otherSet_eq_spec", "V.C10.powerOrder_unique", "V.C10.kahn_is_power_order", "V.C10.reverseTopoAuth_is_power_order", "V.C10.mainline_eq_spec", "V.C10.mainline_unique", "V.C10.mainline_normal_case", "V.C10.mainlinePos_eq_spec", "V.C10.posSteps_eq_spec", "V.C10.posSteps_normal_case", "V.C10.mainlineOrdering_eq_spec", "V.C10.mainlineOrdering_unique", "V.C10.iterativeAuth_eq_fold", "V.C10.iterativeAuth_eq_spec", "V.C10.resolveV2_eq_spec", "V.C10.resolveV2_1_eq_spec", "V.C10.resolves_unique", "V.C10.v1Order_eq_spec", "V.C10.v1Order_unique", "V.C10.resolveV1_eq_spec", "V.C10.resolveV1_unique", "V.C10.v1_result_independent_of_block_order", "V.C10.entrypoint_eq_spec", "V.C10.execSpec_resolves", "V.C10.execSpec_eq_model"],
+    "sources": ["VProps/C10.lean", "VModel/StateRes.lean", "VModel/StateResSpec.lean", "VModel/StateResSpecExec.lean", "VModel/Auth.lean", "VModel/Event.lean", "VProofs/StateResBasic.lean", "VProofs/StateResSort.lean", "VProofs/StateResSpecOrder.lean", "VProofs/StateResSpecClosure.lean", "VProofs/StateResSpecSplit.lean", "VProofs/StateResSpecAuthDiff.lean", "VProofs/StateResSpecControl.lean", "VProofs/StateResSpecKahn.lean", "VProofs/StateResSpecKahn2.lean", "VProofs/StateResSpecMainline.lean", "VProofs/StateResSpecState.lean", "VProofs/StateResSpecResolve.lean", "VProofs/StateResSpecUnique.lean", "VProofs/StateResSpecExample.lean", "VProofs/StateResSpecV1.lean", "VProofs/StateResSpecV1b.lean", "VProofs/StateResSpecExecSets.lean", "VProofs/StateResSpecExecSets2.lean", "VProofs/StateResSpecExecOrder.lean", "VProofs/StateResSpecExecOrder2.lean", "VProofs/StateResSpecExecResolve.lean", "VProofs/StateResSpecExecV1.lean", "VProofs/StateResSpecV1c.lean", "VProofs/AuthLookup.lean", "VProofs/StateResV1.lean", "VProofs/StateResV1b.lean", "VProofs/StateResV1c.lean", "VProofs/StateResV1d.lean", "VProofs/StateResV1e.lean", "VProofs/StateResV1f.lean", "VProofs/StateResGroup.lean"],
+    "theorems": ["V.C10.stateres_column_eq_spec", "V.C10.entrypoint_selects", "V.C10.authClosure_iff_reachable", "V.C10.controlClosure_iff", "V.C10.split_eq_spec", "V.C10.split_v1_eq_spec", "V.C10.authDifference_eq_spec", "V.C10.subgraph_eq_spec", "V.C10.authDifference21_eq_spec", "V.C10.controlSet_eq_spec", "V.C10.otherSet_eq_spec", "V.C10.powerOrder_unique", "V.C10.kahn_is_power_order", "V.C10.reverseTopoAuth_is_power_order", "V.C10.mainline_eq_spec", "V.C10.mainline_unique", "V.C10.mainline_normal_case", "V.C10.mainlinePos_eq_spec", "V.C10.posSteps_eq_spec", "V.C10.posSteps_normal_case", "V.C10.mainlineOrdering_eq_spec", "V.C10.mainlineOrdering_unique", "V.C10.iterativeAuth_eq_fold", "V.C10.iterativeAuth_eq_spec", "V.C10.resolveV2_eq_spec", "V.C10.resolveV2_1_eq_spec", "V.C10.resolves_unique", "V.C10.v1Order_eq_spec", "V.C10.v1Order_unique", "V.C10.resolveV1_eq_spec", "V.C10.resolveV1_unique", "V.C10.v1_result_independent_of_block_order", "V.C10.entrypoint_eq_spec", "V.C10.execSpec_resolves", "V.C10.execSpec_eq_model", "V.C10.execSpecV1_resolves", "V.C10.execSpecV1_eq_model"],
     "rule": "room-history generator: simulated servers build a DAG (create, joins/leaves/invites/bans/kicks, power-level changes incl. "
             "demotions, join-rule changes, other state) with up to 4 forks, equal timestamps, mostly auth-valid events plus some rejected ones; "
             "2-4 state sets at branch tips; versions 1, 2-11 sample, 12/hydra; full auth closure as auth events (one per key for version 1); "
+            "30% of the histories also carry state events whose TYPE is that of a control event (create / power_levels / join_rules) under a "
+            "NON-EMPTY state key (ordinary state, resolved slot by slot); the specification stream is the executable rendering of the definition "
+            "for all three algorithms (version 1: Exec.v1Result); resolve_twice: history A resolved around a history B that re-uses A's event IDs "
+            "with other power-level contents (room versions 1-2), answers compared with the definition's; resolve_cyc: room-version 1 / 2 histories "
+            "with CYCLIC auth_events run in a child process (outside the definition: no specification answer, a panic / hang is a violation); "
             "non-trivial = an op whose state sets differ",
     "nontrivial": lambda op, impl: len(set(op.split("\t")[2].split("|"))) > 1 if len(op.split("\t")) > 2 else False,
     "trusted": COMMON_TRUSTED + ["SHA-1 of event IDs (v1 tie-break) supplied as an oracle by the harness"],
     "assumptions": ["inputs are well-formed: each state set has one event per key; missing auth events are silently skipped (by the code and by the definition)",
+                    "the definition (C10) speaks about room DAGs: the stage theorems assume an acyclic auth graph (Ranked / Acyclic); for cyclic auth_events (possible in room versions 1-2) "
+                    "only termination and well-formedness are claimed (C18 no_panic_resolve, C11 result theorems), and the model mirrors the code's cycle guards (fix c5e96b7)",
                     "the library's refinements R1-R10 of DESIGN.md 6.2 are part of the definition"],
 }
